@@ -43,19 +43,21 @@ def gen_routing(tier, wd, seed):
     path = os.path.join(wd, "routing.ndjson")
     open(path, "w").close()
     base = dict(MODE='"enum"', V=3, EMIN=1, EMAX=3, LMIN=1, LMAX=3, WSET={3, 4, 5, 6, 8}, WD=4, DSET={1, 2, 3, 4, 5, 6}, PK=2,
-                MSET={0, 0, 1, 2}, NROUT=3, NSAMP=4, STRIDE=1, OFFSET=0)
+                MSET={0, 0, 1, 2}, NROUT=3, NSAMP=4, STRIDE=1, OFFSET=0, NSK=1)
     runs = []
     if tier == "quick":
         runs.append(dict(base, V=2, EMAX=3, NSAMP=10))
         runs.append(dict(base, EMIN=2, EMAX=3, NSAMP=4, STRIDE=3, OFFSET=rnd.randrange(3)))
         runs.append(dict(base, EMIN=4, EMAX=4, NSAMP=3, STRIDE=40, OFFSET=rnd.randrange(40)))
         runs.append(dict(base, MODE='"cat"', EMIN=1, EMAX=7, LMAX=5, NSAMP=25, WSET={4, 5, 6, 8, 10}))
+        runs.append(dict(base, MODE='"rand"', V=4, EMIN=5, EMAX=6, LMAX=4, NSK=40, NSAMP=12, WSET={5, 6, 8, 10}, PK=1))
     else:
         runs.append(dict(base, V=2, EMAX=4, NSAMP=40))
         runs.append(dict(base, EMIN=2, EMAX=3, NSAMP=20))
         runs.append(dict(base, EMIN=4, EMAX=4, NSAMP=8, STRIDE=5, OFFSET=rnd.randrange(5)))
         runs.append(dict(base, V=4, EMIN=5, EMAX=5, NSAMP=4, STRIDE=400, OFFSET=rnd.randrange(400)))
         runs.append(dict(base, MODE='"cat"', EMIN=1, EMAX=7, LMAX=5, NSAMP=400, WSET={4, 5, 6, 8, 10}))
+        runs.append(dict(base, MODE='"rand"', V=5, EMIN=5, EMAX=7, LMAX=5, NSK=600, NSAMP=12, WSET={5, 6, 8, 10}, PK=1))
     st = 0
     for i, c in enumerate(runs):
         r = core.tlc("Gen_Routing", core.cfg_text(constants=c, invariants=["Emit"]), "gen_routing_%d" % i, wd, workers=12,
